@@ -133,64 +133,120 @@ def precedence_tables(ctx):
 
 
 def special_arms(ctx, enum):
-    """Read the `if not parent_precedence:` arms of precedence_require_parens_by_type:
-    {parent class name: {'variants': {flag or '': prec}, 'child_override': {child: prec}, 'always': {child,...}}}"""
+    """Read the special parents of precedence_require_parens_by_type (those whose table precedence is false):
+    {parent class name: {'variants': {flag or '': prec}, 'child_override': {child: prec}, 'always': {child,...}}}
+    Two encodings are read: an if / elif chain `<parent> is C:` whose arms assign the parent precedence, and a dispatch table
+    {C: resolver} whose resolvers return it (or True for "always parenthesize")."""
     fis = ctx.repo.funcs('astutil', 'precedence_require_parens_by_type')
     fn = fis[0].node
     env = dict(ctx.ev.env('astutil'))
     out = {}
+    ps = [a.arg for a in fn.args.posonlyargs + fn.args.args]
+    if len(ps) < 3:
+        raise AnalysisError('precedence_require_parens_by_type: (child, parent, field) parameters not found')
+    p_child, p_parent = ps[0], ps[1]
+    p_flags = fn.args.kwarg.arg if fn.args.kwarg else (ps[3] if len(ps) > 3 else 'flags')
 
     def prec(e):
         v = ctx.ev.eval(e, dict(env), 'astutil')
         return v if isinstance(v, EnumVal) else None
 
-    def flag_of(test):
-        # flags.get('name')
-        if isinstance(test, ast.Call) and isinstance(test.func, ast.Attribute) and test.func.attr == 'get' and test.args and \
-                isinstance(test.args[0], ast.Constant):
+    def flag_of(test, flags_name):
+        if isinstance(test, ast.Call) and isinstance(test.func, ast.Attribute) and test.func.attr == 'get' and norm(test.func.value) == flags_name and \
+                test.args and isinstance(test.args[0], ast.Constant):
             return test.args[0].value
         return None
+
+    # the two looked-up precedences and the final comparison
+    cp = pp = None
+    for n in walk_no_nested(fn):
+        if isinstance(n, ast.Assign) and len(n.targets) == 1 and isinstance(n.targets[0], ast.Name) and isinstance(n.value, ast.Call) and \
+                isinstance(n.value.func, ast.Attribute) and n.value.func.attr == 'get':
+            tab = norm(n.value.func.value)
+            if tab == '_PRECEDENCE_NODES':
+                cp = n.targets[0].id
+            elif tab == '_PRECEDENCE_NODE_FIELDS':
+                pp = n.targets[0].id
+    if cp is None or pp is None:
+        raise AnalysisError('precedence_require_parens_by_type: table lookups of child / parent precedence not found')
+    last = fn.body[-1]
+    if not (isinstance(last, ast.Return) and isinstance(last.value, ast.Compare) and len(last.value.ops) == 1 and isinstance(last.value.ops[0], ast.Lt) and
+            norm(last.value.left) == cp and norm(last.value.comparators[0]) == pp):
+        raise AnalysisError('precedence_require_parens_by_type no longer ends in `return <child precedence> < <parent precedence>`')
     block = None
     for n in walk_no_nested(fn):
-        if isinstance(n, ast.If) and norm(n.test) == 'not parent_precedence':
+        if isinstance(n, ast.If) and isinstance(n.test, ast.UnaryOp) and isinstance(n.test.op, ast.Not) and norm(n.test.operand) == pp:
             block = n
     if block is None:
-        raise AnalysisError('precedence_require_parens_by_type: `if not parent_precedence:` block not found')
-    arm = block.body[0]
-    while isinstance(arm, ast.If):
-        t = arm.test
-        if not (isinstance(t, ast.Compare) and norm(t.left) == 'parent_type' and isinstance(t.ops[0], ast.Is)):
-            raise AnalysisError(f'unexpected arm test {norm(t)}')
-        pname = norm(t.comparators[0])
+        raise AnalysisError('precedence_require_parens_by_type: the block for parents without a table precedence was not found')
+
+    def read_arm(stmts, child_name, flags_name, result_name):
+        """result_name None: the arm is a resolver function body that *returns* the precedence."""
         info = {'variants': {}, 'child_override': {}, 'always': set()}
-        for st in arm.body:
-            if isinstance(st, ast.Assign) and norm(st.targets[0]) == 'parent_precedence':
-                v = st.value
-                if isinstance(v, ast.IfExp):
-                    fl = flag_of(v.test)
-                    if fl:
-                        info['variants'][fl] = prec(v.body)
-                        info['variants'][''] = prec(v.orelse)
-                    elif isinstance(v.test, ast.Compare) and norm(v.test.left) == 'child_type':
-                        info['child_override'][norm(v.test.comparators[0])] = prec(v.body)
-                        info['variants'][''] = prec(v.orelse)
-                    else:
-                        raise AnalysisError(f'unexpected precedence expression {norm(v)}')
+
+        def take(v):
+            if isinstance(v, ast.IfExp):
+                fl = flag_of(v.test, flags_name)
+                if fl:
+                    info['variants'][fl] = prec(v.body)
+                    info['variants'][''] = prec(v.orelse)
+                elif isinstance(v.test, ast.Compare) and norm(v.test.left) == child_name and isinstance(v.test.ops[0], ast.Is):
+                    info['child_override'][norm(v.test.comparators[0])] = prec(v.body)
+                    info['variants'][''] = prec(v.orelse)
                 else:
-                    info['variants'][''] = prec(v)
+                    raise AnalysisError(f'unexpected precedence expression {norm(v)}')
+            else:
+                info['variants'][''] = prec(v)
+        for st in stmts:
+            if isinstance(st, ast.Expr) and isinstance(st.value, ast.Constant):
+                continue
+            if result_name is not None and isinstance(st, ast.Assign) and norm(st.targets[0]) == result_name:
+                take(st.value)
+            elif result_name is None and isinstance(st, ast.Return) and st.value is not None and \
+                    not (isinstance(st.value, ast.Constant) and st.value.value is True):
+                take(st.value)
             elif isinstance(st, ast.If):
-                # `if child_type is X: return True` / `if flags.get('attr_val_int'): return True`
-                if isinstance(st.test, ast.Compare) and norm(st.test.left) == 'child_type' and \
+                # `if <child> is X: return True` (always) ; `if flags.get('attr_val_int'): return True` (decided by the caller's flag)
+                if isinstance(st.test, ast.Compare) and norm(st.test.left) == child_name and isinstance(st.test.ops[0], ast.Is) and \
                         isinstance(st.body[0], ast.Return) and norm(st.body[0].value) == 'True':
                     info['always'].add(norm(st.test.comparators[0]))
+        return info
+
+    def finish(pname, info):
         if any(v is None for v in info['variants'].values()) or not info['variants']:
             raise AnalysisError(f'could not read precedence of special arm {pname}')
         out[pname] = info
+
+    # encoding (b): dispatch table of resolver functions
+    table = None
+    for n in ast.walk(block):
+        if isinstance(n, ast.Call) and isinstance(n.func, ast.Attribute) and n.func.attr == 'get' and n.args and norm(n.args[0]) == p_parent and \
+                isinstance(n.func.value, ast.Name):
+            table = n.func.value.id
+        elif isinstance(n, ast.Subscript) and norm(n.slice) == p_parent and isinstance(n.value, ast.Name):
+            table = n.value.id
+    if table is not None:
+        tab = ctx.ev.get('astutil', table)
+        if not isinstance(tab, dict) or not tab:
+            raise AnalysisError(f'astutil.{table} did not evaluate to a dispatch table')
+        # the result of the resolver call becomes the parent precedence, `True` means "always"
+        for k, v in tab.items():
+            g = ctx.repo.find_funcs(v.module, v.qualname) if isinstance(v, FuncTok) else []
+            if not isinstance(k, ClassTok) or not g:
+                raise AnalysisError(f'astutil.{table}: row {k!r} is not (class -> function)')
+            gps = [a.arg for a in g[0].node.args.posonlyargs + g[0].node.args.args]
+            if len(gps) < 2:
+                raise AnalysisError(f'{g[0].qualname}: resolver parameters (child, flags) not found')
+            finish(k.name, read_arm(g[0].node.body, gps[0], gps[1], None))
+        return out, last
+    # encoding (a): if / elif chain on the parent class
+    arm = block.body[0]
+    while isinstance(arm, ast.If):
+        t = arm.test
+        if not (isinstance(t, ast.Compare) and norm(t.left) == p_parent and isinstance(t.ops[0], ast.Is)):
+            raise AnalysisError(f'unexpected arm test {norm(t)}')
+        finish(norm(t.comparators[0]), read_arm(arm.body, p_child, p_flags, pp))
         arm = arm.orelse[0] if arm.orelse and isinstance(arm.orelse[0], ast.If) else None
-    # final statement must be the comparison
-    last = fn.body[-1]
-    if not (isinstance(last, ast.Return) and norm(last.value) == 'child_precedence < parent_precedence'):
-        raise AnalysisError('precedence_require_parens_by_type no longer ends in `return child_precedence < parent_precedence`')
     return out, last
 
 
@@ -300,7 +356,14 @@ def run(ctx):
                 continue
             picks_op = any(isinstance(y, ast.Attribute) and y.attr == '__class__' and isinstance(y.value, ast.Attribute) and y.value.attr == 'op' and
                            norm(y.value.value) == pname for b_ in body for y in ast.walk(b_))
-            asks_cls = any(isinstance(y, ast.Attribute) and y.attr == '__class__' and norm(y.value) == pname for y in ast.walk(test))
+            cls_alias = set()
+            for z in ast.walk(w.node):
+                if isinstance(z, ast.Assign) and isinstance(z.value, ast.Attribute) and z.value.attr == '__class__' and norm(z.value.value) == pname:
+                    cls_alias |= {t.id for t in z.targets if isinstance(t, ast.Name)}
+                elif isinstance(z, ast.NamedExpr) and isinstance(z.value, ast.Attribute) and z.value.attr == '__class__' and norm(z.value.value) == pname:
+                    cls_alias.add(z.target.id)
+            asks_cls = any((isinstance(y, ast.Attribute) and y.attr == '__class__' and norm(y.value) == pname) or
+                           (isinstance(y, ast.Name) and y.id in cls_alias) for y in ast.walk(test))
             if picks_op and asks_cls and T.classes_mentioned(ctx, 'astutil', test) == {'BoolOp', 'BinOp', 'UnaryOp'}:
                 return True
         return False
@@ -359,54 +422,79 @@ def check_use(ctx, F):
                       '_par_if_needed no longer consults precedence_require_parens', fis[0].lineno)
 
     # ---- R9.3 -------------------------------------------------------------------------------------------------------
-    ctx.rule('R9.3', 'in _make_exprlike_fst: parentheses of the new code are removed only under `not need_pars(False)`; '
-                     'del_tgt_pars is set only where the new code brings its own parentheses / will be delimited / '
-                     '`not need_pars(True)`; grouping is added whenever need_pars(True) on an unparenthesized put', 4)
+    ctx.rule('R9.3', 'in _make_exprlike_fst: parentheses of the new code are removed only under `not <need-pars predicate>(adding=False)`; '
+                     'the target\'s parentheses are scheduled for deletion only where the new code brings its own / will be delimited / '
+                     '`not <predicate>(adding=True)`; grouping is added only under `<predicate>(adding=True)`', 4)
     fi = ctx.repo.funcs('fst_put_one', '_make_exprlike_fst')[0]
     fn = fi.node
     par = parent_map(fn)
+    # the need-pars predicate: a closure of the function or a private module-level function that consults precedence_require_parens and
+    # is called with a literal boolean mode ("adding")
+    preds = {}
+    for n in ast.walk(fn):
+        if isinstance(n, ast.FunctionDef) and n is not fn and any(isinstance(x, ast.Call) and call_name(x) == 'precedence_require_parens' for x in ast.walk(n)):
+            preds[n.name] = n
+    for c in walk_no_nested(fn):
+        if isinstance(c, ast.Call) and isinstance(c.func, ast.Name) and c.func.id not in preds:
+            for g in ctx.repo.find_funcs(fi.module, c.func.id):
+                if any(isinstance(x, ast.Call) and call_name(x) == 'precedence_require_parens' for x in ast.walk(g.node)):
+                    preds[c.func.id] = g.node
+    if not preds:
+        raise AnalysisError('_make_exprlike_fst: need-pars predicate (consulting precedence_require_parens) not found')
 
-    def has(t, pol, frag, want_pol=True):
-        return frag in norm(t, 1000) and pol == want_pol
-    n_unpar = 0
+    def pred_mode(e):
+        """True / False when `e` is a call of the predicate with that literal mode, else None."""
+        if isinstance(e, ast.Call) and isinstance(e.func, ast.Name) and e.func.id in preds:
+            lits = [a for a in list(e.args) + [k.value for k in e.keywords] if isinstance(a, ast.Constant) and isinstance(a.value, bool)]
+            if len(lits) == 1:
+                return lits[0].value
+        return None
+
+    def under(node, mode, positive):
+        """`node` is control dependent on `<pred>(mode)` being `positive`."""
+        for t, pol in enclosing_tests(fn, node, par):
+            neg = False
+            while isinstance(t, ast.UnaryOp) and isinstance(t.op, ast.Not):
+                t, neg = t.operand, not neg
+            if pred_mode(t) is mode and (pol != neg) == positive:
+                return True
+        return False
+    unpars = [n for n in walk_no_nested(fn) if isinstance(n, ast.Call) and call_name(n) == '_unparenthesize_grouping' and isinstance(n.func, ast.Attribute)]
+    if not unpars:
+        raise AnalysisError('_make_exprlike_fst: no _unparenthesize_grouping call found (anchor vanished)')
+    put_names = {norm(n.func.value) for n in unpars}
+    for n in unpars:
+        ctx.check('R9.3', under(n, False, False), fi.module, fi.qualname, n,
+                  'grouping parentheses of the code being put are removed without the `not <need-pars>(adding=False)` guard: needed '
+                  'parentheses can be stripped', n.lineno, sample=[norm(t) for t, _ in enclosing_tests(fn, n, par)])
+    # the flag that schedules the target's parentheses for deletion: `<target>.pars(...) if FLAG else <target>.loc`
+    flags_del = {x.test.id for x in ast.walk(fn) if isinstance(x, ast.IfExp) and isinstance(x.test, ast.Name) and isinstance(x.body, ast.Call) and
+                 call_name(x.body) == 'pars' and isinstance(x.orelse, ast.Attribute) and x.orelse.attr == 'loc'}
     for n in walk_no_nested(fn):
-        if isinstance(n, ast.Call) and call_name(n) == '_unparenthesize_grouping':
-            n_unpar += 1
+        if isinstance(n, ast.Assign) and isinstance(n.targets[0], ast.Name) and n.targets[0].id in flags_del and \
+                isinstance(n.value, ast.Constant) and n.value.value is True:
             tests = enclosing_tests(fn, n, par)
-            ok = any(norm(t) == 'not need_pars(False)' and pol for t, pol in tests) or \
-                any(norm(t) == 'need_pars(False)' and not pol for t, pol in tests)
-            ctx.check('R9.3', ok, fi.module, fi.qualname, n,
-                      'grouping parentheses of the code being put are removed without the `not need_pars(False)` guard: needed '
-                      'parentheses can be stripped', n.lineno, sample=[norm(t) for t, _ in tests])
-        if isinstance(n, ast.Assign) and norm(n.targets[0]) == 'del_tgt_pars' and norm(n.value) == 'True':
-            tests = enclosing_tests(fn, n, par)
-            ok = any(("pars(), 'n', 0)" in norm(t, 1000) and 'put_' in norm(t, 1000) and pol) or
-                     ('is_parenthesized_tuple() is False' in norm(t, 1000) and pol) or
-                     (norm(t) == 'not need_pars(True)' and pol) for t, pol in tests)
-            ctx.check('R9.3', ok, fi.module, fi.qualname, f'del_tgt_pars = True under {[norm(t, 60) for t, _ in tests][:3]}',
+
+            def brings_pars(t):
+                return any(isinstance(x, ast.Call) and call_name(x) in ('pars', 'is_parenthesized_tuple') for x in ast.walk(t))
+            ok = under(n, True, False) or any(pol and brings_pars(t) for t, pol in tests)
+            ctx.check('R9.3', ok, fi.module, fi.qualname, f'{n.targets[0].id} = True under {[norm(t, 60) for t, _ in tests][:3]}',
                       'target parentheses are scheduled for deletion on a branch where nothing guarantees the new code keeps '
                       'its grouping', n.lineno)
-        if isinstance(n, ast.Call) and call_name(n) in ('_parenthesize_grouping', '_delimit_node') and norm(n.func.value) == 'put_fst':
-            tests = enclosing_tests(fn, n, par)
-            ok = any(norm(t) == 'need_pars(True)' and pol for t, pol in tests)
-            ctx.check('R9.3', ok, fi.module, fi.qualname, n, 'parenthesization of the new code is not driven by need_pars(True)', n.lineno)
-    if n_unpar == 0:
-        raise AnalysisError('_make_exprlike_fst: no _unparenthesize_grouping call found (anchor vanished)')
-    # need_pars itself must consult the tables for non-atoms
-    np = ctx.repo.mod('fst_put_one').func('_make_exprlike_fst.<locals>.need_pars')
-    if not np:
-        raise AnalysisError('_make_exprlike_fst.need_pars closure not found')
-    calls = [n for n in walk_no_nested(np[0].node) if isinstance(n, ast.Call) and call_name(n) == 'precedence_require_parens']
+        if isinstance(n, ast.Call) and call_name(n) in ('_parenthesize_grouping', '_delimit_node') and isinstance(n.func, ast.Attribute) and \
+                norm(n.func.value) in put_names:
+            ctx.check('R9.3', under(n, True, True), fi.module, fi.qualname, n, 'parenthesization of the new code is not driven by <need-pars>(adding=True)', n.lineno)
+    # the predicate itself must consult the tables for non-atoms: precedence_require_parens(<put ast>, <target>.a, field, idx) under `not X._is_atom(...)`
     ok = False
-    for c in calls:
-        args = [norm(a) for a in c.args]
-        if len(args) >= 4 and args[1] == 'self.a':          # (child, parent = the target node, field, idx)
-            tests = enclosing_tests(np[0].node, c)
-            ok = any(pol and isinstance(t, ast.UnaryOp) and isinstance(t.op, ast.Not) and isinstance(t.operand, ast.Call) and
-                     call_name(t.operand) == '_is_atom' for t, pol in tests)
-    ctx.check('R9.3', ok, 'fst_put_one', '_make_exprlike_fst.need_pars', 'precedence_require_parens(put_ast, self.a, field, idx)',
-              'need_pars() must ask precedence_require_parens(put_ast, self.a, field, idx) for every non-atom put',
-              np[0].lineno)
+    for pname, pnode in preds.items():
+        for c in [n for n in ast.walk(pnode) if isinstance(n, ast.Call) and call_name(n) == 'precedence_require_parens']:
+            if len(c.args) >= 4 and isinstance(c.args[1], ast.Attribute) and c.args[1].attr == 'a':          # (child, parent = the target node, field, idx)
+                tests = enclosing_tests(pnode, c)
+                ok = ok or any(pol and isinstance(t, ast.UnaryOp) and isinstance(t.op, ast.Not) and isinstance(t.operand, ast.Call) and
+                               call_name(t.operand) == '_is_atom' for t, pol in tests)
+    ctx.check('R9.3', ok, 'fst_put_one', '_make_exprlike_fst need-pars predicate', 'precedence_require_parens(put_ast, self.a, field, idx)',
+              'the need-pars predicate must ask precedence_require_parens(<put ast>, <target>.a, field, idx) for every non-atom put',
+              fi.lineno)
 
 
 # ---- R9.4 ------------------------------------------------------------------------------------------------------------
